@@ -125,6 +125,8 @@ let run_fd (args : sexp list) : string =
 let names : (string, int) Hashtbl.t = Hashtbl.create 64
 let names_tbl = names
 let intern (s : string) : nat =
+  (* the model's reserved tag of a typed non-term field (Option<..>): Engine.opt_tag = 0 *)
+  if s = "comp:Opt" then O else
   let i = (match Hashtbl.find_opt names s with
            | Some i -> i
            | None -> let i = Hashtbl.length names + 1 in Hashtbl.add names s i; i) in
@@ -234,7 +236,7 @@ let rec show_term (b : Buffer.t) (t : term) : unit =
        | other -> buf_add b " . "; show_term b other) in
     go true t; buf_add b ")"
   | TComp (tag, cs) ->
-    let name = Hashtbl.fold (fun k v acc -> if v = int_of_nat tag then k else acc) names "?" in
+    let name = if tag = O then "comp:Opt" else Hashtbl.fold (fun k v acc -> if v = int_of_nat tag then k else acc) names "?" in
     let name = if String.length name > 5 then String.sub name 5 (String.length name - 5) else name in
     buf_add b ("{" ^ name);
     let rec go = function TNil -> () | TMore (t, r) -> buf_add b " "; show_term b t; go r in
